@@ -3388,6 +3388,7 @@ class SchemaValidator:
                         if action_checkpoint_ref == thread_checkpoint_ref:
                             # the action's checkpoint is the same as the thread's checkpoint
                             # TODO: decide whether to raise en error here
+                            self._action_checkpoint_refs[action_ref] = thread_checkpoint_ref
                             continue
 
                         # a psuedo-checkpoint is needed to combine the action's checkpoint with the thread's checkpoint
